@@ -184,6 +184,18 @@ def extract_thresholds():
                 gclamp, gok = False, True
     T['gmeClampSqrtArg'] = gclamp
     T['gmeRecognised'] = gok
+    # --- get_concurrence_pure:  ret = np.sqrt(max(0, 2*(1-tmp2)))
+    f = _func(eof, 'get_concurrence_pure')
+    pclamp, pok = False, False
+    for n in ast.walk(f):
+        if isinstance(n, ast.Assign) and ast.unparse(n.targets[0]) == 'ret':
+            s = ast.unparse(n.value).replace(' ', '')
+            if s == 'np.sqrt(max(0,2*(1-tmp2)))':
+                pclamp, pok = True, True
+            elif s == 'np.sqrt(2*(1-tmp2))':
+                pclamp, pok = False, True
+    T['concPureClampSqrtArg'] = pclamp
+    T['concPureRecognised'] = pok
     return T
 
 
@@ -233,6 +245,9 @@ def render_thresholds(T):
     L.append('/-- `get_gme_2qubit` (measure.py): `max(0, 1-c²)` under the square root -/')
     L.append(f'def gmeClampSqrtArg : Bool := {b(T["gmeClampSqrtArg"])}')
     L.append(f'def gmeRecognised : Bool := {b(T["gmeRecognised"])}')
+    L.append('/-- `get_concurrence_pure` (eof.py): `max(0, 2*(1-tmp2))` under the square root -/')
+    L.append(f'def concPureClampSqrtArg : Bool := {b(T["concPureClampSqrtArg"])}')
+    L.append(f'def concPureRecognised : Bool := {b(T["concPureRecognised"])}')
     L.append('')
     L.append('end Numqi.Ent.Thresholds')
     return '\n'.join(L) + '\n'
